@@ -585,8 +585,10 @@ def make_models(extra_numpy=None):
         return ops.IterVal(iter(list(_itl.permutations(list(ops.iterate(I, a[0])), r))))
     more_itertools = {"accumulate": accumulate, "product": product, "pairwise": pairwise, "compress": compress, "zip_longest": zip_longest,
                       "takewhile": takewhile, "dropwhile": dropwhile, "count": count, "combinations": combinations, "permutations": permutations}
+    chain_builtin = Builtin("itertools.chain", chain)
+    chain_builtin.attrs["from_iterable"] = Builtin("itertools.chain.from_iterable", lambda I, a, k: ops.IterVal(x for sub in ops.iterate(I, a[0]) for x in ops.iterate(I, sub)))
     M["itertools"] = ExtModule("itertools", {**{nm: Builtin("itertools." + nm, fn) for nm, fn in more_itertools.items()},
-                                             "islice": Builtin("itertools.islice", islice), "chain": Builtin("itertools.chain", chain),
+                                             "islice": Builtin("itertools.islice", islice), "chain": chain_builtin,
                                              "starmap": Builtin("itertools.starmap", starmap), "repeat": Builtin("itertools.repeat", repeat)})
     M["operator"] = ExtModule("operator", {
         "truediv": Builtin("operator.truediv", lambda I, a, k: ops.binop(I, "/", a[0], a[1])),
